@@ -95,8 +95,8 @@ pub struct Acc {
     pub cadical_runs: u64,
     pub nontrivial: BTreeSet<String>,
     pub outcomes: BTreeSet<String>,
-    pub violations: Vec<Violation>,
-    pub n_violations: u64,
+    /// first violation and count per (property, key)
+    pub violations: std::collections::BTreeMap<(String, String), (u64, Violation)>,
     pub samples: Vec<Value>,
     pub machinery: Vec<String>,
     pub graphs: u64,
@@ -115,11 +115,9 @@ impl Acc {
                 self.outcomes.insert(x);
             }
         }
-        self.n_violations += o.n_violations;
-        for v in o.violations {
-            if self.violations.len() < 200 {
-                self.violations.push(v);
-            }
+        for (k, (n, v)) in o.violations {
+            let e = self.violations.entry(k).or_insert((0, v));
+            e.0 += n;
         }
         for s in o.samples {
             if self.samples.len() < 6 {
@@ -133,10 +131,9 @@ impl Acc {
         self
     }
     pub fn violation(&mut self, v: Violation) {
-        self.n_violations += 1;
-        if self.violations.len() < 50 {
-            self.violations.push(v);
-        }
+        let k = (v.property.clone(), v.key.clone());
+        let e = self.violations.entry(k).or_insert((0, v));
+        e.0 += 1;
     }
 }
 
@@ -333,6 +330,7 @@ impl SweepPlan {
         }
         let acc = tasks
             .par_iter()
+            .with_max_len(1)
             .map(|&(gi, p, s, e)| {
                 let mut acc = Acc::default();
                 let (name, g) = &self.graphs[gi];
